@@ -26,7 +26,7 @@ ASSUMPTIONS = [
     "prefixes bound to one URI; carriage returns",
     "generator and expat reader must agree on the infoset, otherwise the case is inconclusive",
 ]
-REQUIRED = ["documents_larger_than_one_mebibyte", "imports_after_in_place_edit_of_an_earlier_import", "imports_raw", "imports_clean", "imports_collapse", "roundtrips", "docs_with_comments", "docs_with_redeclaration",
+REQUIRED = ["documents_with_two_prefixes_on_one_namespace", "documents_larger_than_one_mebibyte", "imports_after_in_place_edit_of_an_earlier_import", "imports_raw", "imports_clean", "imports_collapse", "roundtrips", "docs_with_comments", "docs_with_redeclaration",
             "docs_with_xml_attr", "docs_with_qualified_attr", "docs_with_cdata", "literal_hits", "blank_kept", "trimmed_to_none"]
 EXHAUSTIVE = {"quick": False, "thorough": False}
 
@@ -240,10 +240,34 @@ def big_documents(ctx):
             ctx.case(judge, ctx, None, text, clean, collapse, (), seconds=300.0)
 
 
+def aliasing_documents(ctx):
+    """Two prefixes bound to one namespace name in one scope (a pasted <ns0:unitList xmlns:ns0=...> inside a document that declares stmml
+    for the same name): which prefix a *qualified attribute* shows is not stated, but these documents have none in the shared namespace -
+    every element carries the prefix it is written with."""
+    u, v = "http://www.xml-cml.org/schema/stmml-1.2", "urn:other"
+    prefixes = ["stmml", "ns0", "a", "z", "eml", "xsi", "unit"]
+    for p1 in prefixes:
+        for p2 in prefixes:
+            if p1 == p2:
+                continue
+            docs = [
+                f'<eml xmlns:{p1}="{u}" xmlns:{p2}="{u}"><{p1}:unitList><{p2}:unit id="m"/><{p1}:unit id="k">t</{p1}:unit></{p1}:unitList><{p2}:x/><y/></eml>',
+                f'<{p2}:eml xmlns:{p1}="{u}" xmlns:{p2}="{u}" xmlns:o="{v}"><o:a><{p1}:b/>tail</o:a><{p2}:c lang="en"/></{p2}:eml>',
+                f'<eml xmlns:{p1}="{u}"><additionalMetadata><metadata><{p2}:unitList xmlns:{p2}="{u}"><{p2}:unit/><{p1}:unit/></{p2}:unitList>'
+                f'<{p1}:unitList><{p1}:unit/></{p1}:unitList></metadata></additionalMetadata></eml>',
+                f'<eml xmlns:{p1}="{u}"><{p1}:k xmlns:{p2}="{u}" xmlns:{p1}="{v}"><{p2}:m/><{p1}:m/></{p1}:k><{p1}:k/></eml>',
+            ]
+            for text in docs:
+                ctx.count("documents_with_two_prefixes_on_one_namespace")
+                for clean, collapse in ((False, False), (True, True)):
+                    ctx.case(judge, ctx, None, text, clean, collapse, ())
+
+
 def run(ctx, params):
     rng = ctx.rng
     if params.get("salt", 0) == 0:
         big_documents(ctx)
+        aliasing_documents(ctx)
     # the usual workflow normalises a document before importing it: whatever that call does to the process must not change
     # how later documents are imported
     try:
